@@ -206,4 +206,19 @@ PROPS = {
         level_note='The secant model is compared bit for bit (outcome, root, every visited flow) with the real scipy root_scalar through the real '
                    'find_operating_point on recorded gap tables of eight curve shapes. The main landing clause is partial (search).',
     ),
+    'C13': dict(
+        own_files=['Lemmas/LC13.v', 'Props/C13.v'],
+        corr=[dict(script='corr_gen.py', n=500, n_thorough=10000, args=['Stratified.vls_FBSB', 'Stratified.fb_Erhg', 'Stratified.fb_head_loss',
+                                                                        'Stratified.fb_pressure_loss', 'Stratified.lambda1', 'Stratified.lambda12',
+                                                                        'Stratified.lambda12_sf'])],
+        search='C13.py', budget_quick=800, budget_thorough=40000,
+        partial=['C13_converges: that the 20-step Newton search reports success (and a positive speed) for every input of E with Cvs <= 0.40 is not '
+                 'proved; searched with the high-deposit-limit and the weak small-pipe corners over-weighted',
+                 'C13_unique: uniqueness is proved GIVEN monotonicity of the fixed-bed excess gradient in line speed, which is C04\'s partial clause'],
+        level_text='Proof (regenerated model, induction over the step budget): whenever vls_FBSB\'s search returns through its convergence test the '
+                   'fixed-bed excess gradient at the returned speed is within e of musf -- 0.1 % for the default e = musf/1000 (checked to be the '
+                   'default, with the default budget 20); the public value is that run\'s value. Convergence on E and uniqueness are partial.',
+        level_note='Loop translated as structural recursion on max_steps returning (value, converged); value compared bit-exactly with the Python for '
+                   'max_steps in {0,1,3,10,20,50}.',
+    ),
 }
